@@ -25,4 +25,16 @@ CHECKS = {
   "text": "Generated structures (incl. insertion codes, blank/digit/lower-case chain ids, hetero groups, TER-less chain breaks) are relabelled by injective chain renaming, per-chain shifts (to negative numbers, to a start at exactly 0, by multiples of 1000), strictly increasing renumbering and resolving/introducing insertion codes; every group record keyed by file position must agree within 1e-9 (counts exact) and labels must follow the relabelling.",
   "note": "Open known finding F5 (insertion-code twins treated as one residue) is excluded by signature: only relabellings that create/resolve twins and only when every differing group is within 30 A of a twin residue. Fixed finding F10 (terminus bookkeeping by residue number only) is a regression case.",
  },
+ "C13": {
+  "level": "exploration",
+  "technique": "differential property-based testing (Hypothesis): -c subset on the full file vs. no option on the file with the other chains' records deleted, bit-exact",
+  "text": "For generated multi-chain structures (upper/lower-case, digit and blank chain ids, TER present or absent between chains, hetero groups with their own or a protein chain's id, hetero records first, optional second MODEL) and generated non-empty subsets of chains, the complete observation record and the .pka text of the -c run must be bit-identical to the run on the filtered file.",
+  "note": "Trusts the harness PDB reader/writer for building the filtered file. Subsets and structures are sampled.",
+ },
+ "C14": {
+  "level": "exploration",
+  "technique": "differential/metamorphic property-based testing (Hypothesis): -i list vs. option-free run of the same generated structure",
+  "text": "For generated structures and generated residue lists (subsets, singletons, all residues, duplicates, phantom entries, insertion-coded residues) the reported groups must be exactly the option-free reported groups lying in listed residues with unchanged titratable flags; desolvation terms, buried counts, backbone determinants and non-iterative side-chain determinants of listed groups must equal the option-free run; Coulomb determinants may only name listed partners or ions; listing everything must equal no option (1e-9); phantom entries must change nothing (bit-exact).",
+  "note": "The environment clause is not asserted for determinants towards partners penalised by covalent coupling or for covalently coupled groups (those legitimately differ between the two runs: coupling is only established among titratable groups). Blank chain ids are outside the domain. Open finding F5 (insertion-code twins) excluded by signature.",
+ },
 }
